@@ -23,6 +23,8 @@ def grid(B,nsl,rels):
 H=[{"name":"H_witness","tiers":Q,"expect":"violation","bounds":"vacuity witness"}]
 H.append({"name":"H_safe","tiers":Q,"scale":"b2","bounds":"B=2: pristine old 0..2B+1, damaged old any length 0..old+B+1 or deleted, independent fully symbolic contents; new = old / old+1 byte / first block moved to the end / second block onwards",
   "param_sets":grid(2,[0,1,2,3,4,5],[0,1,2,3])})
+H.append({"name":"H_safe","tiers":Q,"scale":"b2","bounds":"B=2: the same with three other files before f in the old container (empty, unchanged, dropped by new): f's hashes start at index 4 of the signature; also f becoming a second whole-file copy of the kept / of the dropped neighbour; pristine old 3..4",
+  "param_sets":[dict(p,pre=1) for p in grid(2,[3,4],[0,1,2,3,4,5])]})
 H.append({"name":"H_safe_bsdiff","tiers":Q,"scale":"w","bounds":"optimized patch (bsdiff series read through the LRU file on top of the safekeeper; B=4, LRU chunk = patch buffer = 2 as 32 KiB is to 64 KiB, 2 cache entries): pristine old 13..14 concrete bytes, two bytes inserted at 1 / 5 (+ optionally one edited byte), damaged old fully symbolic of the same length or one byte shorter",
   "param_sets":[{"ns":ns,"na":na,"ins":i,"edit":e} for ns in (13,14,17) for na in (ns,ns-1) for i in (1,5) for e in (-1,9)]})
 H.append({"name":"H_safe","tiers":T,"scale":"b4","bounds":"B=4: pristine old in {0,3,4,5,8,9}, damaged 0..old+B+1","max_seconds":1500,"param_sets":grid(4,[0,3,4,5,8,9],[0,1,2,3])})
